@@ -16,19 +16,51 @@ import (
 
 	packettypes "github.com/bianjieai/tibc-go/modules/tibc/core/04-packet/types"
 	host "github.com/bianjieai/tibc-go/modules/tibc/core/24-host"
-	"github.com/bianjieai/tibc-go/modules/tibc/core/exported"
 	routingtypes "github.com/bianjieai/tibc-go/modules/tibc/core/26-routing/types"
+	"github.com/bianjieai/tibc-go/modules/tibc/core/exported"
 	tibcmock "github.com/bianjieai/tibc-go/modules/tibc/testing/mock"
 )
 
 // Pkt is the abstract packet of the specification.
 type Pkt struct {
-	Src   string `json:"src"`
-	Dst   string `json:"dst"`
-	Relay string `json:"relay"`
-	Port  string `json:"port"`
-	Seq   uint64 `json:"seq"`
-	Data  string `json:"data"`
+	Src   string  `json:"src"`
+	Dst   string  `json:"dst"`
+	Relay string  `json:"relay"`
+	Port  string  `json:"port"`
+	Seq   uint64  `json:"seq"`
+	Data  DataVal `json:"data"`
+}
+
+// AppData is the abstract NFT / MT packet data record of TibcApps.
+type AppData struct {
+	K    string   `json:"k"`   // nft | mt
+	Cls  []string `json:"cls"` // full class path, '/'-separated segments, chain names abstracted
+	ID   string   `json:"id"`
+	Snd  string   `json:"snd"`
+	Rcv  string   `json:"rcv"`
+	Away bool     `json:"away"`
+	Amt  int64    `json:"amt"` // units (nft: 1)
+}
+
+// DataVal is a packet payload: an opaque tag (core family) or an application data record.
+type DataVal struct {
+	Tag string
+	Rec *AppData
+}
+
+func (d DataVal) MarshalJSON() ([]byte, error) {
+	if d.Rec != nil {
+		return json.Marshal(d.Rec)
+	}
+	return json.Marshal(d.Tag)
+}
+
+func (d *DataVal) UnmarshalJSON(b []byte) error {
+	if len(b) > 0 && b[0] == '{' {
+		d.Rec = &AppData{}
+		return json.Unmarshal(b, d.Rec)
+	}
+	return json.Unmarshal(b, &d.Tag)
 }
 
 // CleanPkt is the abstract clean packet.
@@ -50,6 +82,15 @@ type Event struct {
 	Rules  *[][]string     `json:"rules,omitempty"` // triples [src,dst,port], "*" = wildcard
 	Signer int             `json:"signer,omitempty"`
 	X      string          `json:"x,omitempty"`   // second chain argument (client name etc.)
+	K      string          `json:"k,omitempty"`   // application: nft | mt
+	Cls    []string        `json:"cls,omitempty"` // class on the chain: ["n"|"v", segments...]
+	ID     string          `json:"id,omitempty"`
+	U      string          `json:"u,omitempty"` // acting user
+	To     string          `json:"to,omitempty"`
+	Rcv    string          `json:"rcv,omitempty"`
+	Dst    string          `json:"dst,omitempty"`
+	Relay  string          `json:"relay,omitempty"`
+	Amt    int64           `json:"amt,omitempty"`
 	Tag    string          `json:"tag,omitempty"` // alteration family / free label from the generator
 	Args   json.RawMessage `json:"args,omitempty"`
 }
@@ -101,43 +142,18 @@ func (t *Tags) HashTag(h []byte) string {
 	return "?" + hex.EncodeToString(h)[:8]
 }
 
-// errClasses classifies the text of genuine application error acknowledgements; the specification
-// predicts these tags (first match wins).
-var errClasses = [][2]string{
-	{"sender address cannot be blank", "err"},
-	{"receiver address cannot be blank", "err"},
-	{"decoding bech32 failed", "err_rcv"},
-	{"invalid bech32", "err_rcv"},
-	{"class has no prefix", "err_prefix"},
-	{"already exists", "err_dup"},
-	{"not exist", "err_missing"},
-	{"not found", "err_missing"},
-	{"unauthorized", "err_owner"},
-	{"invalid amount", "err_amount"},
-}
-
-// BytesTag maps ack/data bytes to a tag. Error acknowledgements are classified by their text.
+// BytesTag maps ack/data bytes to a tag. Every genuine application error acknowledgement is "err" (the
+// specification does not predict error texts); the relay chain's "unauthorized" and the forged "errX" are fixed.
 func (t *Tags) BytesTag(b []byte) string {
 	if tag, ok := t.byBytes[string(b)]; ok {
 		return tag
 	}
 	var ack packettypes.Acknowledgement
 	if err := ack.Unmarshal(b); err == nil {
-		if e, isErr := ack.Response.(*packettypes.Acknowledgement_Error); isErr {
+		if _, isErr := ack.Response.(*packettypes.Acknowledgement_Error); isErr {
 			h := sha256.Sum256(b)
-			tag := "err_other_" + hex.EncodeToString(h[:])[:6]
-			for _, c := range errClasses {
-				if strings.Contains(e.Error, c[0]) {
-					tag = c[1]
-					break
-				}
-			}
-			if _, taken := t.data[tag]; taken {
-				// a second, different text of the same class in one trace
-				tag = tag + "_" + hex.EncodeToString(h[:])[:6]
-			}
-			t.Add(tag, append([]byte{}, b...))
-			return tag
+			t.byHash[hex.EncodeToString(h[:])] = "err"
+			return "err"
 		}
 	}
 	h := sha256.Sum256(b)
@@ -155,6 +171,11 @@ type ChainState struct {
 	Cl    []string        `json:"cl"`    // chains this chain holds a client of
 	Ex    []string        `json:"ex"`    // clients that report Expired at the next block time
 	Rules [][]string      `json:"rules"` // routing rules as triples, chain and port names abstracted
+	Nft   [][]interface{} `json:"nft"`   // [cls, id, owner]
+	Mt    [][]interface{} `json:"mt"`    // [cls, id, owner, units]
+	Sup   [][]interface{} `json:"sup"`   // [cls, id, units]
+	Tr    [][]string      `json:"tr"`    // registered class traces (full paths)
+	Den   [][]string      `json:"den"`   // NFT classes (denoms) that exist on the chain
 }
 
 func (r *Runner) splitChan(rest string) (string, string, bool) {
@@ -179,7 +200,7 @@ func (r *Runner) Project(x string) ChainState {
 		}
 	}
 	for _, s := range pk.GetAllPacketCommitments(ctx) {
-		cs.Cm = append(cs.Cm, []interface{}{n.A(s.SourceChain), n.A(s.DestinationChain), s.Sequence, r.Tags.HashTag(s.Data)})
+		cs.Cm = append(cs.Cm, []interface{}{n.A(s.SourceChain), n.A(s.DestinationChain), s.Sequence, r.hashVal(s.Data)})
 	}
 	for _, s := range pk.GetAllPacketReceipts(ctx) {
 		cs.Rc = append(cs.Rc, []interface{}{n.A(s.SourceChain), n.A(s.DestinationChain), s.Sequence})
@@ -220,6 +241,10 @@ func (r *Runner) Project(x string) ChainState {
 		}
 	}
 	sort.Slice(cs.Rules, func(i, j int) bool { return strings.Join(cs.Rules[i], ",") < strings.Join(cs.Rules[j], ",") })
+	cs.Nft, cs.Mt, cs.Sup, cs.Tr, cs.Den = [][]interface{}{}, [][]interface{}{}, [][]interface{}{}, [][]string{}, [][]string{}
+	if r.Apps != nil {
+		r.Apps.project(x, &cs)
+	}
 	return cs
 }
 
@@ -272,12 +297,15 @@ type Rec struct {
 	St    map[string]ChainState  `json:"st"`    // projection of every chain
 	Dig   map[string]string      `json:"dig"`   // packet-store digest per chain
 	App   map[string]string      `json:"app"`   // nft+mt store digest per chain
+	Diff  []string               `json:"diff"`  // ExportImport: classes of store keys that differ on the re-imported chain
+	Ah    map[string]string      `json:"ah"`    // application hash of every chain after the step
+	Rh    string                 `json:"rh"`    // fingerprint of the transaction result (code, log, gas, events)
 	Info  map[string]interface{} `json:"info,omitempty"`
 	Extra map[string]interface{} `json:"x,omitempty"`
 }
 
 func (r *Runner) pkt(p *Pkt) packettypes.Packet {
-	return packettypes.NewPacket(r.Tags.Bytes(p.Data), p.Seq, r.N.R(p.Src), r.N.R(p.Dst), r.N.R(p.Relay), r.port(p.Port))
+	return packettypes.NewPacket(r.dataBytes(p), p.Seq, r.N.R(p.Src), r.N.R(p.Dst), r.N.R(p.Relay), r.port(p.Port))
 }
 
 func (r *Runner) port(p string) string {
@@ -334,23 +362,84 @@ func (r *Runner) scanEvents(res *abci.ExecTxResult, rec *Rec) {
 			n, _ := strconv.ParseUint(attr(e, packettypes.AttributeKeySequence), 10, 64)
 			rec.Wack = append(rec.Wack, []interface{}{r.N.A(attr(e, packettypes.AttributeKeySrcChain)), r.N.A(attr(e, packettypes.AttributeKeyDstChain)), n,
 				r.Tags.BytesTag([]byte(attr(e, packettypes.AttributeKeyAck)))})
+			if r.ackBytes == nil {
+				r.ackBytes = map[string][]byte{}
+			}
+			if rec.Ev != nil {
+				r.ackBytes[ackKey(rec.Ev.C, r.N.A(attr(e, packettypes.AttributeKeySrcChain)), r.N.A(attr(e, packettypes.AttributeKeyDstChain)), n)] = []byte(attr(e, packettypes.AttributeKeyAck))
+			}
 		case packettypes.EventTypeSendPacket:
 			n, _ := strconv.ParseUint(attr(e, packettypes.AttributeKeySequence), 10, 64)
+			if r.Apps != nil {
+				r.Apps.register(r.N.A(attr(e, packettypes.AttributeKeySrcChain)), r.N.A(attr(e, packettypes.AttributeKeyDstChain)), n,
+					r.absPort(attr(e, packettypes.AttributeKeyPort)), []byte(attr(e, packettypes.AttributeKeyData)))
+			}
 			rec.Sent = append(rec.Sent, []interface{}{r.N.A(attr(e, packettypes.AttributeKeySrcChain)), r.N.A(attr(e, packettypes.AttributeKeyDstChain)), n,
 				r.N.A(attr(e, packettypes.AttributeKeyRelayChain)), r.absPort(attr(e, packettypes.AttributeKeyPort)),
-				r.Tags.BytesTag([]byte(attr(e, packettypes.AttributeKeyData)))})
+				r.dataVal([]byte(attr(e, packettypes.AttributeKeyData)), r.absPort(attr(e, packettypes.AttributeKeyPort)))})
 		}
 	}
 }
 
 // Runner executes behaviours of one family on a network.
 type Runner struct {
-	N    *Net
-	Tags *Tags
-	Out  func(*Rec)
-	tr   int
-	i    int
+	N     *Net
+	Tags  *Tags
+	Out   func(*Rec)
+	tr    int
+	i     int
 	calls []interface{}
+	Apps  *Apps
+	diff  []string
+	// acknowledgement bytes written per chain and packet key (for "err" acks whose text the model does not predict)
+	ackBytes map[string][]byte
+}
+
+// dataBytes concretises a payload.
+func (r *Runner) dataBytes(p *Pkt) []byte {
+	if p.Data.Rec != nil && r.Apps != nil {
+		return r.Apps.encode(p.Data.Rec, p.Src, p.Dst, p.Seq)
+	}
+	return r.Tags.Bytes(p.Data.Tag)
+}
+
+// dataVal abstracts payload bytes: application data record if the port's application can decode them, else a tag.
+func (r *Runner) dataVal(b []byte, port string) interface{} {
+	if r.Apps != nil {
+		if rec := r.Apps.decode(b, port); rec != nil {
+			return rec
+		}
+	}
+	return r.Tags.BytesTag(b)
+}
+
+// hashVal abstracts a stored commitment hash.
+func (r *Runner) hashVal(h []byte) interface{} {
+	if r.Apps != nil {
+		if rec, ok := r.Apps.byHash[hex.EncodeToString(h)]; ok {
+			return rec
+		}
+	}
+	return r.Tags.HashTag(h)
+}
+
+func ackKey(chain, s, d string, n uint64) string { return fmt.Sprintf("%s|%s|%s|%d", chain, s, d, n) }
+
+// ackFor returns the acknowledgement bytes for tag; for application error acks the bytes really written for this
+// packet on the proving chain (or anywhere) are used.
+func (r *Runner) ackFor(tag string, p *Pkt, proofChain string) []byte {
+	if tag == "err" {
+		if b, ok := r.ackBytes[ackKey(proofChain, p.Src, p.Dst, p.Seq)]; ok {
+			return b
+		}
+		for _, x := range r.N.Names {
+			if b, ok := r.ackBytes[ackKey(x, p.Src, p.Dst, p.Seq)]; ok {
+				return b
+			}
+		}
+		return packettypes.NewErrorAcknowledgement("some application error").GetBytes()
+	}
+	return r.Tags.Bytes(tag)
 }
 
 // InstallHook makes the router report application callbacks to this runner.
@@ -365,7 +454,7 @@ func (r *Runner) InstallHook() {
 			at = r.Tags.BytesTag(ack)
 		}
 		r.calls = append(r.calls, []interface{}{kind, r.absPort(p.Port), r.N.A(p.SourceChain), r.N.A(p.DestinationChain), p.Sequence,
-			r.N.A(p.RelayChain), r.Tags.BytesTag(p.Data), at, e})
+			r.N.A(p.RelayChain), r.dataVal(p.Data, r.absPort(p.Port)), at, e})
 	}
 }
 
@@ -403,8 +492,18 @@ func (r *Runner) emit(ev *Event, res *abci.ExecTxResult, info map[string]interfa
 			}
 		}
 	}
+	rec.Rh = resultHash(res)
+	rec.Diff = r.diff
+	if rec.Diff == nil {
+		rec.Diff = []string{}
+	}
+	r.diff = nil
 	r.scanEvents(res, rec)
 	r.snapshot(rec)
+	rec.Ah = map[string]string{}
+	for _, x := range r.N.Names {
+		rec.Ah[x] = hex.EncodeToString(r.N.Chains[x].App.LastCommitID().Hash)[:16]
+	}
 	r.Out(rec)
 	return rec
 }
@@ -451,7 +550,7 @@ func (r *Runner) StepCore(ev *Event) *Rec {
 		return r.emit(ev, res, info)
 	case "Ack":
 		p := r.pkt(ev.Pkt)
-		ack := r.Tags.Bytes(ev.Ack)
+		ack := r.ackFor(ev.Ack, ev.Pkt, ev.Proof.Chain)
 		proof, ph, info := n.MakeProof(*ev.Proof, packettypes.CommitAcknowledgement(ack))
 		msg := packettypes.NewMsgAcknowledgement(p, ack, proof, ph, n.Chains[ev.C].SenderAccounts[ev.Signer].SenderAccount.GetAddress())
 		res := n.Deliver(ev.C, ev.Signer, msg)
@@ -487,6 +586,19 @@ func (r *Runner) StepCore(ev *Event) *Rec {
 		n.Coord.CommitBlock(c)
 		n.dirty[ev.C] = true
 		return r.emit(ev, keeperResult(err, nil), nil)
+	}
+	switch ev.Act {
+	case "Expire":
+		// the client of ev.X on ev.C has a short trusting period (Net.Short): let it run out
+		n.ExpireClients(n.ShortPeriod * 2)
+		return r.emit(ev, &abci.ExecTxResult{}, nil)
+	case "ExportImport":
+		d, info := n.ExportImport(ev.C)
+		r.diff = d
+		return r.emit(ev, &abci.ExecTxResult{}, info)
+	case "AdvanceTo":
+		n.AdvanceTo(ev.C, uint64(ev.Amt))
+		return r.emit(ev, &abci.ExecTxResult{}, nil)
 	}
 	n.T.Fatalf("unknown core event %q", ev.Act)
 	return nil
